@@ -80,6 +80,26 @@ Theorem rebuild_restores_any : forall g log,
              (forall k, is_idx_of g k = false -> get k c' = get k c).
 Proof. exact rebuild_restores_any_pf. Qed.
 
+(* BadgerDB's per-transaction limit (a transaction with [lim] or more writes fails): an Init whose
+   seeds + marker reach the limit IS a failing Init ([limit_op] turns it into [InitErr], to which
+   acked_durable and init_once apply as to any failing Init): nothing seeded, no marker *)
+Theorem limit_op_cases : forall lim c o,
+  limit_op lim c o = o \/
+  (exists s, o = Init s /\ valid_seeds s = true /\ limit_op lim c o = InitErr (lim - 1)
+             /\ failing_init (limit_op lim c o) /\ snd (compile_op c (limit_op lim c o)) = c).
+Proof. exact limit_op_cases_pf. Qed.
+
+(* RebuildIndexes under the limit, after any lifetimes and kills: it either succeeds and then the
+   indexes are exact, or it returns an error and then no value and not the marker has changed *)
+Theorem rebuild_lim_exact_or_error : forall lim g ls,
+  let c := run_all g [] ls in
+  (exists c', rebuild_indexes_lim lim g c = RbOk c' /\ index_exact g c' /\
+              (forall k, is_idx_of g k = false -> get k c' = get k c)) \/
+  (exists d, rebuild_indexes_lim lim g c = RbErr d /\
+             (forall k, is_idx_of g k = false -> get k d = get k c) /\
+             (forall k, is_idx_of g k = true -> get k d = None)).
+Proof. exact rebuild_lim_pf. Qed.
+
 (* RebuildIndexes before the fix (marker unmarshalled as a value) fails for a store without
    prefix and leaves the index empty *)
 Theorem rebuild_v0_empty_prefix_refuted :
